@@ -52,8 +52,18 @@ func identTokens(file, src string) []identPos {
 						rest := pre[k:]
 						isParam = strings.Contains(rest, "(") && !strings.Contains(rest, ")")
 					}
+					// a later name of a local name list: `local a, b, c`
+					inLocalList := false
+					if t := strings.TrimLeft(pre, " "); strings.HasPrefix(t, "local ") && !strings.HasPrefix(t, "local function") {
+						inLocalList = true
+						for _, ch := range t[len("local "):] {
+							if !(ch == '_' || ch == ',' || ch == ' ' || (ch >= 'a' && ch <= 'z') || (ch >= 'A' && ch <= 'Z') || (ch >= '0' && ch <= '9')) {
+								inLocalList = false
+							}
+						}
+					}
 					out = append(out, identPos{file: file, line: ln, col: i, name: w,
-						afterLocal: isParam || strings.HasSuffix(pre, "local ") || strings.HasSuffix(pre, "local function ")})
+						afterLocal: isParam || inLocalList || strings.HasSuffix(pre, "local ") || strings.HasSuffix(pre, "local function ")})
 				}
 				i = j
 			default:
@@ -116,6 +126,36 @@ func genModuleWorkspace(r *lib.Rng) map[string]string {
 		files[fmt.Sprintf("user%d.lua", u+1)] = strings.Join(ls, "\n") + "\n"
 	}
 	return files
+}
+
+// genMemberWorkspace: one file with nested table members (t.sub.alpha, constructor fields two levels deep)
+// and multiple assignments whose right-hand side is a single call (a, b = f()).
+func genMemberWorkspace(r *lib.Rng) map[string]string {
+	var ls []string
+	ls = append(ls, "local function two()", "  return 1, 2", "end")
+	blocks := [][]string{
+		{"local t = {}", "t.sub = {}", "t.sub.alpha = 3", "t.sub.beta = t.sub.alpha", "print(t.sub.alpha, t.sub.beta, t.sub)"},
+		{"local cfg = { inner = { depth = 3 }, top = 1 }", "print(cfg.inner.depth, cfg.top, cfg.inner)"},
+		{"local p, q = 0, 0", "p, q = two()", "print(p, q)"},
+		{"local p2, q2, r2 = 0, 0, 0", "p2, q2, r2 = 1, two()", "print(p2, q2, r2)"},
+		{"local rec = {}", "rec.a, rec.b = 1, 2", "print(rec.a, rec.b)"},
+		{"local rec2 = {}", "rec2.a, rec2.b = two()", "print(rec2.a, rec2.b)"},
+		{"local deep = { l1 = { l2 = { l3 = 1 } } }", "deep.l1.l2.l3 = deep.l1.l2.l3 + 1", "print(deep.l1.l2, deep.l1)"},
+		{"local u, w = two()", "local function uses()", "  u, w = two()", "  return u + w", "end", "print(uses)"},
+	}
+	r.Shuffle(len(blocks), func(i, j int) { blocks[i], blocks[j] = blocks[j], blocks[i] })
+	for _, b := range blocks[:3+r.Intn(4)] {
+		if r.Chance(1, 3) {
+			ls = append(ls, "do")
+			for _, l := range b {
+				ls = append(ls, "  "+l)
+			}
+			ls = append(ls, "end")
+		} else {
+			ls = append(ls, b...)
+		}
+	}
+	return map[string]string{"main.lua": strings.Join(ls, "\n") + "\n"}
 }
 
 func genAnnotWorkspace(r *lib.Rng) map[string]string {
@@ -279,8 +319,31 @@ func c12Multi(res *lib.Result, dir string, files map[string]string, tag string, 
 					continue
 				}
 			}
+			// class K4: the definition is a constructor key nested three or more levels deep
+			if d.ok {
+				dl := strings.Split(files[d.file], "\n")
+				if d.line < len(dl) && braceDepth(dl[d.line], d.col) >= 3 {
+					res.HitKnown("C12-K4", "go-to-definition on a table-constructor key nested three or more levels deep ('local d = { a = { b = { c = 1 } } }', cursor on c) returns nothing (the key-position lookup returns at most a two-name prefix), while references from a use 'd.a.b.c' list that key: the reference does not resolve to the declaration, and the declaration has no references of its own", caseText+"\n"+strings.Join(problems, "\n"))
+					res.Dist("hit.C12-K4")
+					continue
+				}
+			}
 			res.AddViolation("inconsistent-answers", strings.Join(problems, "; "), caseText, false)
 		}
 	}
 	return nil
+}
+
+// braceDepth: number of table constructors open at column col of a line (templates keep constructors on one line)
+func braceDepth(line string, col int) int {
+	d := 0
+	for i := 0; i < col && i < len(line); i++ {
+		switch line[i] {
+		case '{':
+			d++
+		case '}':
+			d--
+		}
+	}
+	return d
 }
